@@ -39,7 +39,7 @@ def run(ctx):
     files = []
     for mode in ("kfold", "tts", "cv"):
         f = ctx.path("c16-%s.ndjson" % mode)
-        ctx.harness("c16", "gen-" + mode, f)
+        ctx.harness("gen-" + mode, f)
         files.append(f)
     allf = ctx.path("c16-all.ndjson")
     events = []
